@@ -88,7 +88,7 @@ pub enum Op {
     /// satisfy every widget identity when the next row's wires are zero too)
     RawZero { q: [Sc; 6], internal: [Sc; 5] },
     /// raw range row over a real quad chain, next row carries d_next
-    RawRange { quads: [u8; 4] },
+    RawRange { quads: [u8; 4], q: Sc },
 }
 
 impl Op {
@@ -670,7 +670,7 @@ pub fn interpret(prog: &Program, tape: &Tape, c: &mut Composer) -> Result<(), Er
                     .verif_raw(*internal);
                 c.append_custom_gate(k);
             }
-            Op::RawRange { quads } => {
+            Op::RawRange { quads, q } => {
                 let four = Sc::from(4u64);
                 let vd = cur.scalar();
                 let vc = four * vd + Sc::from(quads[0] as u64);
@@ -684,7 +684,7 @@ pub fn interpret(prog: &Program, tape: &Tape, c: &mut Composer) -> Result<(), Er
                 let wn = c.append_witness(vn);
                 let k = Constraint::new().a(wa).b(wb).c(wc).d(wd).verif_raw([
                     Sc::zero(),
-                    Sc::one(),
+                    *q,
                     Sc::zero(),
                     Sc::zero(),
                     Sc::zero(),
@@ -921,7 +921,9 @@ fn gen_op(rng: &mut Rng, cfg: &GenCfg) -> Op {
                 if !cfg.raw {
                     continue;
                 }
-                Op::RawRange { quads: [rng.below(4) as u8, rng.below(4) as u8, rng.below(4) as u8, rng.below(4) as u8] }
+                // the selector value itself is arbitrary (non-zero): the widget multiplies by it
+                let q = if rng.chance(1, 2) { Sc::one() } else { nonzero_sel(rng) };
+                Op::RawRange { quads: [rng.below(4) as u8, rng.below(4) as u8, rng.below(4) as u8, rng.below(4) as u8], q }
             }
         };
         return op;
@@ -960,7 +962,9 @@ pub fn generate(rng: &mut Rng, cfg: &GenCfg) -> Option<Program> {
         }
     }
     let n_ops = 1 + rng.usize(cfg.max_ops.max(1));
-    let reserve = if cfg.raw_last { 1 } else { 0 };
+    // a raw row on the very last row needs room for itself
+    let raw_last = cfg.raw_last && target.map(|t| t > base).unwrap_or(true);
+    let reserve = if raw_last { 1 } else { 0 };
     let mut count = base;
     for _ in 0..n_ops {
         let op = gen_op(rng, cfg);
@@ -974,7 +978,7 @@ pub fn generate(rng: &mut Rng, cfg: &GenCfg) -> Option<Program> {
                 if let Some(t) = target {
                     if c + reserve > t {
                         // undo and stop
-                        while count_constraints(&prog).map(|c| c + reserve > t).unwrap_or(true) {
+                        while !prog.ops.is_empty() && count_constraints(&prog).map(|c| c + reserve > t).unwrap_or(true) {
                             prog.ops.pop();
                         }
                         break;
@@ -994,7 +998,7 @@ pub fn generate(rng: &mut Rng, cfg: &GenCfg) -> Option<Program> {
             prog.ops.push(Op::Filler(missing));
         }
     }
-    if cfg.raw_last {
+    if raw_last {
         prog.ops.push(gen_raw_zero(rng));
     }
     if let Some(t) = target {
